@@ -42,12 +42,17 @@ Uninstalls(keeps, nohs, drys) ==
 
 F == {FALSE}
 Forced(S) == {[m EXCEPT !.force = TRUE] : m \in S}
+\* helm upgrade --install (command line only)
+UpInstalls(charts, atoms, nohs, drys, nss, skips) ==
+  {[U("upgrade", c) EXCEPT !.install = TRUE, !.atomic = a, !.nohooks = nh, !.dry = d, !.createNS = n, !.skipCRDs = k] :
+     c \in charts, a \in atoms, nh \in nohs, d \in drys, n \in nss, k \in skips}
 CRDInstalls(reps, drys, nss, skips) ==
   {[U("install", "cR") EXCEPT !.replace = r, !.dry = d, !.createNS = n, !.skipCRDs = k] :
      r \in reps, d \in drys, n \in nss, k \in skips}
 
 \* ledger family (C01): all four operations, replace / atomic / keep-history / history limits
 MenuLedger == Installs({"cA", "cB"}, B, B, F, F, F) \cup Upgrades({"cA", "cB"}, B, B, {0, 1, 2}, F, F, F)
+              \cup UpInstalls({"cA", "cB"}, B, F, F, F, F)
               \cup Rollbacks({0, 1, 2}, {0, 2}, F, F, F) \cup Uninstalls(B, F, F)
 \* cluster family (C02): growing / shrinking / changing / keep-toggling manifests
 MenuCluster == Installs({"cA", "cB", "cC", "cK"}, B, F, F, B, F) \cup Upgrades({"cA", "cB", "cC", "cK", "cV"}, F, F, {0}, F, B, F)
@@ -62,6 +67,7 @@ MenuFault == Installs({"cA", "cH"}, F, B, B, F, F) \cup Upgrades({"cB", "cI", "c
 \* dry-run family (C06)
 MenuDry == Installs({"cA", "cH"}, B, B, B, B, B) \cup CRDInstalls(B, B, B, B) \cup Upgrades({"cR"}, F, F, {0}, F, F, B) \cup Upgrades({"cB", "cI"}, B, B, {0, 1}, B, B, B)
            \cup Rollbacks({0, 1}, {0, 1}, B, F, B) \cup Uninstalls(B, B, B)
+           \cup UpInstalls({"cA", "cR", "cH"}, B, F, B, B, B)
            \cup {[U("install", "cA") EXCEPT !.dry = TRUE, !.clientOnly = TRUE],
                  [U("install", "cH") EXCEPT !.dry = TRUE, !.clientOnly = TRUE, !.replace = TRUE]}
 \* ownership family (C07)
@@ -82,13 +88,13 @@ MenuLong == Installs({"cA"}, F, F, F, F, F) \cup Upgrades({"cA", "cB"}, F, F, {0
 MenuAll == MenuLedger \cup MenuCluster \cup MenuFault \cup MenuDry \cup MenuOwn \cup MenuHooks
 
 \* smaller menus for the exhaustive configurations (the generators use the large ones)
-XLedger == Installs({"cA"}, B, B, F, F, F) \cup Upgrades({"cB"}, B, F, {0, 2}, F, F, F)
+XLedger == Installs({"cA"}, B, B, F, F, F) \cup Upgrades({"cB"}, B, F, {0, 2}, F, F, F) \cup UpInstalls({"cB"}, B, F, F, F, F)
            \cup Rollbacks({0, 1}, {0, 2}, F, F, F) \cup Uninstalls(B, F, F)
 XCluster == Installs({"cA", "cC"}, F, F, F, B, F) \cup Upgrades({"cB", "cC", "cK"}, F, F, {0}, F, B, F)
             \cup Rollbacks({0}, {0}, F, F, F) \cup Uninstalls(F, F, F) \cup Forced(Upgrades({"cB"}, F, F, {0}, F, F, F))
 XFault == Installs({"cA"}, F, B, F, F, F) \cup Upgrades({"cB"}, B, B, {0}, F, F, F)
           \cup Rollbacks({0}, {0}, F, B, F) \cup Uninstalls(F, F, F)
-XDry == Installs({"cH"}, B, F, F, F, B) \cup CRDInstalls(F, B, B, B) \cup Upgrades({"cI"}, F, F, {0, 1}, F, F, B)
+XDry == Installs({"cH"}, B, F, F, F, B) \cup CRDInstalls(F, B, B, B) \cup UpInstalls({"cR"}, F, F, B, F, B) \cup Upgrades({"cI"}, F, F, {0, 1}, F, F, B)
         \cup Rollbacks({0}, {0, 1}, F, F, B) \cup Uninstalls(B, F, B)
         \cup {[U("install", "cH") EXCEPT !.dry = TRUE, !.clientOnly = TRUE]}
 XOwn == Installs({"cA", "cB"}, F, F, F, B, F) \cup Upgrades({"cB", "cL"}, F, F, {0}, F, B, F)
